@@ -9,6 +9,28 @@ from .. import facts as F
 MOD = "classes.trie_dict"
 
 
+def _ob(ctx, rule, key, ok, message, site=None, **kw):
+    """a shape obligation on the trie code; when the shape is not the reviewed one it is decided by the bounded model of
+    the class (every history of <= 2 steps, observed at the end and between steps): TrieDict against a dict, or --
+    for set_and_prune_if_shorter -- HostnameTrieSet against the set of hosts under the added domains"""
+    if "cells" not in kw:
+        which = "hostset" if "set_and_prune" in key or "prune" in key else "triedict"
+
+        def cells(which=which):
+            memo = ctx.__dict__.setdefault("_trie_model_cells", {})
+            if which not in memo:
+                if which == "triedict":
+                    n, bad = triedict_model_result(ctx.repo, 2)
+                    memo[which] = [("TrieDict behaves as a dict on all %d histories of <= 2 assignments%s" % (n, "" if bad is None else ": after %r it reports %r, a dict %r" % bad[:3]), bad is None)]
+                else:
+                    # the pruning code needs sibling sub-domains under a shared label and three adds
+                    n, bad = hostset_model_result(ctx.repo, 3, ["a.com", "b.a.com", "c.b.a.com", "d.b.a.com", "A.COM", "x.org"])
+                    memo[which] = [("HostnameTrieSet behaves as the set of hosts under the added domains on all %d add orders of <= 3 hosts over {a.com, b.a.com, c.b.a.com, d.b.a.com, A.COM, x.org}%s" % (n, "" if bad is None else ": after %r it reports %r, expected %r" % bad[:3]), bad is None)]
+            return memo[which]
+        kw["cells"] = cells
+    return ctx.ob(rule, key, ok, message, site, **kw)
+
+
 def method(ctx, cls, name):
     m = ctx.repo.mod(MOD)
     fn = m.method(cls, name)
@@ -61,13 +83,13 @@ def rule_sentinel(ctx, rule, cls="TrieDict"):
             for t in tests:
                 if is_value_attr(t) or (isinstance(t, ast.Name) and t.id in ("last_value", "value")):
                     n += 1
-                    ctx.ob(rule, "%s/truthiness-of-%s" % (fn.name, unparse(t)), False,
+                    _ob(ctx, rule, "%s/truthiness-of-%s" % (fn.name, unparse(t)), False,
                            "TrieDict.%s tests the truthiness of %s: a stored falsy value (None, 0, '') is treated as absent" % (fn.name, unparse(t)), m.site(t), witness="t[k] = None")
             if isinstance(node, ast.Compare) and (is_value_attr(node.left) or (isinstance(node.left, ast.Name) and node.left.id == "last_value")):
                 n += 1
                 comp = node.comparators[0]
                 ok = len(node.ops) == 1 and isinstance(node.ops[0], (ast.Is, ast.IsNot)) and isinstance(comp, ast.Name) and comp.id == "NULL"
-                ctx.ob(rule, "%s/value-test/%s" % (fn.name, unparse(node)), ok,
+                _ob(ctx, rule, "%s/value-test/%s" % (fn.name, unparse(node)), ok,
                        "TrieDict.%s decides presence with `%s` instead of an identity test against NULL" % (fn.name, unparse(node)), m.site(node), witness="t[k] = None",
                        sample="%s: %s" % (fn.name, unparse(node)))
     ctx.require_instances(rule, n, 10, "value tests in TrieDict")
@@ -77,10 +99,10 @@ def rule_sentinel(ctx, rule, cls="TrieDict"):
         ok = rec is not None and rec[0] == "assign" and isinstance(rec[1], ast.Call) and isinstance(rec[1].func, ast.Name) and rec[1].func.id == "object"
     except Exception:
         ok = False
-    ctx.ob(rule, "NULL-is-a-private-sentinel", ok, "NULL is not a fresh object(): it can collide with a stored value", m.site(m.tree))
+    _ob(ctx, rule, "NULL-is-a-private-sentinel", ok, "NULL is not a fresh object(): it can collide with a stored value", m.site(m.tree))
     init = m.method("TrieDictNode", "__init__")
     vals = [st for st in init.body if isinstance(st, ast.Assign) and isinstance(st.targets[0], ast.Attribute) and st.targets[0].attr == "value"]
-    ctx.ob(rule, "node-starts-NULL", bool(vals) and isinstance(vals[0].value, ast.Name) and vals[0].value.id == "NULL", "a fresh TrieDictNode does not start with value NULL", m.site(init))
+    _ob(ctx, rule, "node-starts-NULL", bool(vals) and isinstance(vals[0].value, ast.Name) and vals[0].value.id == "NULL", "a fresh TrieDictNode does not start with value NULL", m.site(init))
 
 
 def _append_of(var_list, var_node):
@@ -123,7 +145,7 @@ def rule_insert(ctx, rule, name, prune=False):
     for rb in rebinds:
         # every path from the loop header to the rebind passes append(node), exactly once
         ok = not _reach_avoiding(g, key_loop, rb, app)
-        ctx.ob(rule, "%s/descend-records-parent@%d" % (name, rebinds.index(rb)), ok,
+        _ob(ctx, rule, "%s/descend-records-parent@%d" % (name, rebinds.index(rb)), ok,
                "TrieDict.%s moves to a child (`%s`) on a path that does not append the parent to %s first: its counter is never updated" % (name, unparse(rb.ast), vis), m.site(rb.ast),
                sample="%s: every path to `%s` passes `%s.append(%s)`" % (name, unparse(rb.ast), vis, var))
     # counter increment: for n in visited: n.counter += 1  under  node.value is NULL
@@ -134,23 +156,23 @@ def rule_insert(ctx, rule, name, prune=False):
                 if isinstance(st, ast.AugAssign) and isinstance(st.target, ast.Attribute) and st.target.attr == "counter":
                     incs.append((node, st))
     plus = [(l, st) for l, st in incs if isinstance(st.op, ast.Add)]
-    ctx.ob(rule, name + "/increment-loop-present", bool(plus), "TrieDict.%s never increments the counters of the visited nodes" % name, m.site(fn))
+    _ob(ctx, rule, name + "/increment-loop-present", bool(plus), "TrieDict.%s never increments the counters of the visited nodes" % name, m.site(fn))
     for l, st in plus:
         ok = isinstance(st.value, ast.Constant) and st.value.value == 1
-        ctx.ob(rule, name + "/increment-is-one", ok, "TrieDict.%s changes the visited counters by %s on a first insertion instead of +1" % (name, unparse(st.value)), m.site(st))
+        _ob(ctx, rule, name + "/increment-is-one", ok, "TrieDict.%s changes the visited counters by %s on a first insertion instead of +1" % (name, unparse(st.value)), m.site(st))
         # guarded by `<var>.value is NULL`
         guard = _enclosing_tests(fn, l)
         has = any(is_null_test(t, var) == "is" and pol for t, pol in guard) or any(is_null_test(t, var) == "isnot" and not pol for t, pol in guard)
-        ctx.ob(rule, name + "/increment-only-on-first-insertion", has,
+        _ob(ctx, rule, name + "/increment-only-on-first-insertion", has,
                "TrieDict.%s increments the counters without testing `%s.value is NULL`: overwriting a key is counted twice" % (name, var), m.site(l), witness="t[k]=1; t[k]=2; len(t)")
     # value write after the NULL test
     writes = [n for n in g.nodes if n.kind == "stmt" and isinstance(n.ast, ast.Assign) and isinstance(n.ast.targets[0], ast.Attribute) and n.ast.targets[0].attr == "value"
               and isinstance(n.ast.targets[0].value, ast.Name) and n.ast.targets[0].value.id == var]
-    ctx.ob(rule, name + "/stores-value", bool(writes), "TrieDict.%s never stores the value" % name, m.site(fn))
+    _ob(ctx, rule, name + "/stores-value", bool(writes), "TrieDict.%s never stores the value" % name, m.site(fn))
     tests = [n for n in g.nodes if n.kind == "test" and is_null_test(n.ast, var) and n.id > key_loop.id and not _inside(fn, n.ast, key_loop.ast)]
     for w in writes:
         for t in tests:
-            ctx.ob(rule, name + "/NULL-test-precedes-write", not g.reachable(w, t), "TrieDict.%s writes the value before testing whether the key is new" % name, m.site(w.ast))
+            _ob(ctx, rule, name + "/NULL-test-precedes-write", not g.reachable(w, t), "TrieDict.%s writes the value before testing whether the key is new" % name, m.site(w.ast))
         # every normal exit stores the value (except the documented early return of set_and_prune)
     if prune:
         _rule_prune(ctx, rule, name, m, fn, g, var, vis, key_loop)
@@ -217,7 +239,7 @@ def _rule_prune(ctx, rule, name, m, fn, g, var, vis, key_loop):
             test_nodes = [n for n in g.nodes if n.kind == "test" and is_null_test(n.ast, var) == "isnot" and _inside(fn, n.ast, key_loop.ast)]
             if test_nodes and all(not _reach_avoiding(g, key_loop, rb, lambda n, tn=test_nodes: n in tn) for rb in rebinds):
                 ok = True
-    ctx.ob(rule, name + "/longer-than-existing-entry-is-ignored", ok,
+    _ob(ctx, rule, name + "/longer-than-existing-entry-is-ignored", ok,
            "TrieDict.%s does not stop (before consuming the token) when it meets a stored shorter prefix: a sub-domain of an added domain would be stored below it" % name, m.site(key_loop.ast),
            witness="add('b.org'); add('a.b.org')")
     # prune branch
@@ -233,13 +255,13 @@ def _rule_prune(ctx, rule, name, m, fn, g, var, vis, key_loop):
     body = prune_if.body
     # establishes the negation of its guard
     resets = [st for st in body if isinstance(st, ast.Assign) and isinstance(st.targets[0], ast.Attribute) and st.targets[0].attr == "children" and isinstance(st.value, ast.Constant) and st.value.value is None]
-    ctx.ob(rule, name + "/prune-resets-children-to-None", bool(resets),
+    _ob(ctx, rule, name + "/prune-resets-children-to-None", bool(resets),
            "TrieDict.%s's prune branch does not set %s.children back to None: adding the same key again re-enters the prune branch and corrupts the counters" % (name, var), m.site(prune_if),
            witness="add('a.b.org'); add('b.org'); add('b.org'); len()")
     subs = [(i, st) for i, st in enumerate(body) if isinstance(st, ast.For) and isinstance(st.iter, ast.Name) and st.iter.id == vis]
     zero = [(i, st) for i, st in enumerate(body) if isinstance(st, ast.Assign) and isinstance(st.targets[0], ast.Attribute) and st.targets[0].attr == "counter" and isinstance(st.value, ast.Constant) and st.value.value == 0]
-    ctx.ob(rule, name + "/prune-adjusts-ancestors", bool(subs), "TrieDict.%s's prune branch does not adjust the counters of the visited nodes" % name, m.site(prune_if))
-    ctx.ob(rule, name + "/prune-zeroes-own-counter", bool(zero), "TrieDict.%s's prune branch does not reset the pruned node's counter" % name, m.site(prune_if))
+    _ob(ctx, rule, name + "/prune-adjusts-ancestors", bool(subs), "TrieDict.%s's prune branch does not adjust the counters of the visited nodes" % name, m.site(prune_if))
+    _ob(ctx, rule, name + "/prune-zeroes-own-counter", bool(zero), "TrieDict.%s's prune branch does not reset the pruned node's counter" % name, m.site(prune_if))
     for i, loop in subs:
         for st in loop.body:
             if isinstance(st, ast.AugAssign) and isinstance(st.target, ast.Attribute) and st.target.attr == "counter":
@@ -252,17 +274,17 @@ def _rule_prune(ctx, rule, name, m, fn, g, var, vis, key_loop):
                 elif isinstance(st.op, ast.Sub) and isinstance(v, ast.Attribute) and v.attr == "counter":
                     form = 0
                 if form is None and isinstance(st.op, (ast.Sub, ast.Add)) and isinstance(v, ast.BinOp) and isinstance(v.op, ast.Sub) and not any(isinstance(x, ast.Attribute) and x.attr == "counter" for x in ast.walk(v)):
-                    ctx.ob(rule, name + "/prune-delta-from-pruned-counter", False,
+                    _ob(ctx, rule, name + "/prune-delta-from-pruned-counter", False,
                            "TrieDict.%s adjusts the ancestors by `%s`, which is not computed from the pruned node's counter (the number of entries stored below it): len() is wrong when the pruned sub-tree is deeper than one level" % (name, unparse(st)),
                            m.site(st), witness="add('news.media.example.org'); add('blog.media.example.org'); add('example.org'); len()")
                 elif form is None:
                     ctx.undecided(rule, "TrieDict.%s: prune delta `%s` not in a recognised linear form" % (name, unparse(st)))
                 else:
-                    ctx.ob(rule, name + "/prune-delta", form == 1,
+                    _ob(ctx, rule, name + "/prune-delta", form == 1,
                            "TrieDict.%s's prune branch changes the ancestors by -(pruned.counter - %s); replacing c entries by one is -(c - 1)" % (name, form), m.site(st),
                            witness="add('a.b.org'); add('c.b.org'); add('b.org'); len()", sample=unparse(st))
         for j, z in zero:
-            ctx.ob(rule, name + "/prune-reads-counter-before-reset", i < j, "TrieDict.%s resets the pruned node's counter before subtracting it from its ancestors" % name, m.site(z))
+            _ob(ctx, rule, name + "/prune-reads-counter-before-reset", i < j, "TrieDict.%s resets the pruned node's counter before subtracting it from its ancestors" % name, m.site(z))
     # fresh-insert increment is on the `elif value is NULL` arm (not in the prune arm)
     for st in prune_if.orelse:
         pass
@@ -280,18 +302,18 @@ def rule_lookup(ctx, rule):
                 if is_value_attr(v):
                     guard = _enclosing_tests(fn, p.ast)
                     ok = any(is_null_test(t, var) == "isnot" and pol for t, pol in guard)
-                    ctx.ob(rule, "%s/returns-value-only-when-present" % name, ok, "TrieDict.%s returns node.value without testing it against NULL: the sentinel leaks" % name, m.site(p.ast))
+                    _ob(ctx, rule, "%s/returns-value-only-when-present" % name, ok, "TrieDict.%s returns node.value without testing it against NULL: the sentinel leaks" % name, m.site(p.ast))
                 else:
                     ok = miss == "default" and isinstance(v, ast.Name) and v.id == "default"
-                    ctx.ob(rule, "%s/miss-exit/%s" % (name, unparse(v) if v else "None"), ok, "TrieDict.%s returns %s on a miss" % (name, unparse(v) if v else None), m.site(p.ast))
+                    _ob(ctx, rule, "%s/miss-exit/%s" % (name, unparse(v) if v else "None"), ok, "TrieDict.%s returns %s on a miss" % (name, unparse(v) if v else None), m.site(p.ast))
             elif p.kind == "raise":
                 ok = miss == "raise" and "KeyError" in unparse(p.ast)
-                ctx.ob(rule, "%s/raises-KeyError" % name, ok, "TrieDict.%s raises %s" % (name, unparse(p.ast)), m.site(p.ast))
+                _ob(ctx, rule, "%s/raises-KeyError" % name, ok, "TrieDict.%s raises %s" % (name, unparse(p.ast)), m.site(p.ast))
             else:
-                ctx.ob(rule, "%s/no-fallthrough" % name, False, "TrieDict.%s can fall off its end (returns None) after `%s`" % (name, unparse(p.ast)[:40] if p.ast is not None else ""), m.site(fn))
+                _ob(ctx, rule, "%s/no-fallthrough" % name, False, "TrieDict.%s can fall off its end (returns None) after `%s`" % (name, unparse(p.ast)[:40] if p.ast is not None else ""), m.site(fn))
         # the descent: missing child -> miss
         loops = [n for n in g.nodes if n.kind == "for"]
-        ctx.ob(rule, "%s/descends-token-by-token" % name, len(loops) == 1, "TrieDict.%s does not walk the key token by token" % name, m.site(fn))
+        _ob(ctx, rule, "%s/descends-token-by-token" % name, len(loops) == 1, "TrieDict.%s does not walk the key token by token" % name, m.site(fn))
 
 
 class _Violation(Exception):
@@ -360,11 +382,11 @@ def rule_examine(ctx, rule, name, pop_based=False):
         if k in seen:
             continue
         seen.add(k)
-        ctx.ob(rule, "%s/every-visited-node-examined@%s" % (name, unparse(n.ast)[:30]), False,
+        _ob(ctx, rule, "%s/every-visited-node-examined@%s" % (name, unparse(n.ast)[:30]), False,
                "TrieDict.%s %s (`%s`): a value stored on that node (e.g. under the empty key, or on an inner prefix) is never reported" % (name, what, unparse(n.ast)[:50]),
                m.site(n.ast), witness="t[[]] = 'ROOT'")
     if not problems:
-        ctx.ob(rule, "%s/every-visited-node-examined" % name, True, "", m.site(fn), sample="typestate over %d CFG nodes of %s: each binding of `%s` is followed by a read of %s.value before the next binding / return" % (len(g.nodes), name, var, var))
+        _ob(ctx, rule, "%s/every-visited-node-examined" % name, True, "", m.site(fn), sample="typestate over %d CFG nodes of %s: each binding of `%s` is followed by a read of %s.value before the next binding / return" % (len(g.nodes), name, var, var))
     return m, fn, g
 
 
@@ -376,27 +398,27 @@ def rule_longest(ctx, rule):
     var = root_var(fn)
     for lab, p in g.exit.pred:
         if p.kind != "return":
-            ctx.ob(rule, "longest/no-fallthrough", False, "longest_matching_prefix_value can fall off its end", m.site(fn))
+            _ob(ctx, rule, "longest/no-fallthrough", False, "longest_matching_prefix_value can fall off its end", m.site(fn))
             continue
         v = p.ast.value
         if is_value_attr(v):
             guard = _enclosing_tests(fn, p.ast)
             ok = any(is_null_test(t, var) == "isnot" and pol for t, pol in guard)
-            ctx.ob(rule, "longest/returns-node-value-only-when-present", ok, "longest_matching_prefix_value returns node.value without a NULL test", m.site(p.ast))
+            _ob(ctx, rule, "longest/returns-node-value-only-when-present", ok, "longest_matching_prefix_value returns node.value without a NULL test", m.site(p.ast))
         elif isinstance(v, ast.IfExp):
             t = v.test
             ok = isinstance(t, ast.Compare) and isinstance(t.left, ast.Name) and isinstance(t.ops[0], (ast.Is, ast.IsNot)) and isinstance(t.comparators[0], ast.Name) and t.comparators[0].id == "NULL"
             if ok:
                 val, other = (v.body, v.orelse) if isinstance(t.ops[0], ast.IsNot) else (v.orelse, v.body)
                 ok = isinstance(val, ast.Name) and val.id == t.left.id and isinstance(other, ast.Constant) and other.value is None
-            ctx.ob(rule, "longest/sentinel-mapped-to-None", ok, "longest_matching_prefix_value's final return (`%s`) can leak the NULL sentinel" % unparse(v), m.site(p.ast))
+            _ob(ctx, rule, "longest/sentinel-mapped-to-None", ok, "longest_matching_prefix_value's final return (`%s`) can leak the NULL sentinel" % unparse(v), m.site(p.ast))
         elif isinstance(v, ast.Name):
-            ctx.ob(rule, "longest/sentinel-mapped-to-None", False, "longest_matching_prefix_value returns `%s` unchecked: the NULL sentinel leaks when nothing matches" % v.id, m.site(p.ast))
+            _ob(ctx, rule, "longest/sentinel-mapped-to-None", False, "longest_matching_prefix_value returns `%s` unchecked: the NULL sentinel leaks when nothing matches" % v.id, m.site(p.ast))
         elif v is None or (isinstance(v, ast.Constant) and v.value is None):
-            ctx.ob(rule, "longest/returns-None", True, "", m.site(p.ast))
+            _ob(ctx, rule, "longest/returns-None", True, "", m.site(p.ast))
     # last_value is refreshed from the current node (assignment last_value = node.value under not-NULL)
     refresh = [n for n in ast.walk(fn) if isinstance(n, ast.Assign) and isinstance(n.targets[0], ast.Name) and is_value_attr(n.value)]
-    ctx.ob(rule, "longest/remembers-last-valued-node", bool(refresh), "longest_matching_prefix_value does not remember the last valued node on the way down", m.site(fn))
+    _ob(ctx, rule, "longest/remembers-last-valued-node", bool(refresh), "longest_matching_prefix_value does not remember the last valued node on the way down", m.site(fn))
 
 
 def rule_traversals(ctx, rule):
@@ -409,28 +431,28 @@ def rule_traversals(ctx, rule):
         pushes = [n for n in g.nodes if n.kind == "stmt" and isinstance(n.ast, ast.Expr) and isinstance(n.ast.value, ast.Call) and isinstance(n.ast.value.func, ast.Attribute)
                   and n.ast.value.func.attr in ("append", "extend") and not (isinstance(n.ast.value.args[0], ast.Name))]
         pushes = [n for n in pushes if "children" in unparse(n.ast) or any("children" in unparse(l.ast) for l in g.nodes if l.kind == "for" and _inside(fn, n.ast, l.ast))]
-        ctx.ob(rule, name + "/yields", bool(ys), "TrieDict.%s never yields" % name, m.site(fn))
-        ctx.ob(rule, name + "/pushes-children", bool(pushes), "TrieDict.%s never pushes the children of a node" % name, m.site(fn))
+        _ob(ctx, rule, name + "/yields", bool(ys), "TrieDict.%s never yields" % name, m.site(fn))
+        _ob(ctx, rule, name + "/pushes-children", bool(pushes), "TrieDict.%s never pushes the children of a node" % name, m.site(fn))
         for y in ys:
             ok = any(g.reachable(y, p, cross_back_edges=False) for p in pushes)
-            ctx.ob(rule, name + "/yield-then-descend", ok,
+            _ob(ctx, rule, name + "/yield-then-descend", ok,
                    "TrieDict.%s does not descend below a node that holds a value (after the yield the children are never pushed): keys extending a stored key disappear" % name,
                    m.site(y.ast), witness="t['ab']=1; t['a']=2; list(t.%s())" % name)
         # children iteration covers .items()/.values() of node.children, no filter
         for node in ast.walk(fn):
             if isinstance(node, ast.For) and "children" in unparse(node.iter):
                 has_if = any(isinstance(st, ast.If) for st in node.body)
-                ctx.ob(rule, name + "/all-children-pushed", not has_if, "TrieDict.%s filters the children it pushes" % name, m.site(node))
+                _ob(ctx, rule, name + "/all-children-pushed", not has_if, "TrieDict.%s filters the children it pushes" % name, m.site(node))
         # prefix copied
         for node in ast.walk(fn):
             if isinstance(node, ast.Call) and isinstance(node.func, ast.Attribute) and node.func.attr == "append" and isinstance(node.func.value, ast.Name) and node.func.value.id == "prefix":
-                ctx.ob(rule, name + "/prefix-copied", False, "TrieDict.%s mutates the shared prefix list in place" % name, m.site(node))
+                _ob(ctx, rule, name + "/prefix-copied", False, "TrieDict.%s mutates the shared prefix list in place" % name, m.site(node))
         if name in ("items", "prefixes"):
             adds = [x for x in ast.walk(fn) if isinstance(x, ast.BinOp) and isinstance(x.op, ast.Add) and isinstance(x.left, ast.Name) and x.left.id == "prefix"]
-            ctx.ob(rule, name + "/prefix-extended-by-token", bool(adds), "TrieDict.%s does not extend the prefix with the child's token" % name, m.site(fn))
+            _ob(ctx, rule, name + "/prefix-extended-by-token", bool(adds), "TrieDict.%s does not extend the prefix with the child's token" % name, m.site(fn))
     m, fn = method(ctx, "TrieDict", "__iter__")
     r = [st for st in fn.body if isinstance(st, ast.Return)]
-    ctx.ob(rule, "__iter__/is-items", bool(r) and "items" in unparse(r[0]), "TrieDict.__iter__ is not items()", m.site(fn))
+    _ob(ctx, rule, "__iter__/is-items", bool(r) and "items" in unparse(r[0]), "TrieDict.__iter__ is not items()", m.site(fn))
 
 
 def rule_len(ctx, rule):
@@ -439,16 +461,16 @@ def rule_len(ctx, rule):
     src = unparse(fn)
     reads_counter = any(isinstance(x, ast.Attribute) and x.attr == "counter" for x in ast.walk(fn))
     reads_value = any(is_null_test(x) for x in ast.walk(fn) if isinstance(x, ast.Compare))
-    ctx.ob(rule, "__len__/reads-root-counter", reads_counter, "TrieDict.__len__ does not read the root counter", m.site(fn))
+    _ob(ctx, rule, "__len__/reads-root-counter", reads_counter, "TrieDict.__len__ does not read the root counter", m.site(fn))
     m2, si = method(ctx, "TrieDict", "__setitem__")
     # does the insert path count the terminal node itself? (an increment of node.counter / a size field outside the visited loop)
     self_count = any(isinstance(x, ast.AugAssign) and isinstance(x.target, ast.Attribute) and not any(isinstance(p, ast.For) and x in ast.walk(p) for p in ast.walk(si) if isinstance(p, ast.For)) for x in ast.walk(si))
-    ctx.ob(rule, "__len__/empty-key-counted", reads_value or self_count,
+    _ob(ctx, rule, "__len__/empty-key-counted", reads_value or self_count,
            "counters only count entries strictly below a node and __len__ returns the root counter alone: a value stored under the empty key is never counted", m.site(fn), witness="t[[]] = 1; len(t) == 0")
     rets = [st for st in ast.walk(fn) if isinstance(st, ast.Return)]
     for r in rets:
         if isinstance(r.value, ast.BinOp) and isinstance(r.value.op, ast.Add) and isinstance(r.value.right, ast.Constant):
-            ctx.ob(rule, "__len__/root-value-adds-one", r.value.right.value == 1, "TrieDict.__len__ adds %r for a root value" % r.value.right.value, m.site(r))
+            _ob(ctx, rule, "__len__/root-value-adds-one", r.value.right.value == 1, "TrieDict.__len__ adds %r for a root value" % r.value.right.value, m.site(r))
 
 
 # ----------------------------------------------------------------------
@@ -499,13 +521,13 @@ def _explore(histories, fresh, step, observe, maxlen):
     return n, None
 
 
-def rule_triedict_model(ctx, rule, maxlen=2):
-    """TrieDict against a reference dict on every assignment history of length <= maxlen over a 5-key universe."""
+def triedict_model_result(repo, maxlen):
+    """(number of histories, first disagreement or None) of TrieDict against a dict; Unknown propagates"""
     import itertools
     from ..microeval import Raised
-    from ..srcmodel import Unknown
-    ctx.rule(rule, "bounded model table: TrieDict, interpreted (analyser's evaluator) on EVERY history of <= %d assignments over the keys {(), a, ab, abc, b} x values {1, None}, is observationally the dictionary of those assignments: len, get (with default), indexing / KeyError, items / prefixes / values (as multisets), and longest_matching_prefix_value on 8 queries agree with a reference dict after each history, and again when every observation is also made between the assignments" % maxlen)
-    repo = ctx.repo
+    cache = repo.__dict__.setdefault("_triedict_model", {})
+    if maxlen in cache:
+        return cache[maxlen]
     keys = [(), ("a",), ("a", "b"), ("a", "b", "c"), ("b",)]
     queries = [(), ("a",), ("a", "b"), ("a", "b", "c"), ("a", "b", "c", "d"), ("a", "x"), ("b", "b"), ("c",)]
     vals = [1, None]
@@ -513,7 +535,6 @@ def rule_triedict_model(ctx, rule, maxlen=2):
     m = repo.mod("classes.trie_dict")
     cls = m.klass("TrieDict")
     site = m.site(cls)
-    ctx.fn("ural.classes.trie_dict.TrieDict")
     call = _method_runner(repo, m, cls)
     def fresh():
         return _instantiate(repo, "classes.trie_dict", "TrieDict")[2], {}
@@ -551,8 +572,20 @@ def rule_triedict_model(ctx, rule, maxlen=2):
         exp.append(("values", sorted(repr(v) for v in ref.values())))
         return obs, exp
 
+    cache[maxlen] = _explore(lambda L: itertools.product(ops, repeat=L), fresh, step, observe, maxlen)
+    return cache[maxlen]
+
+
+def rule_triedict_model(ctx, rule, maxlen=2):
+    """TrieDict against a reference dict on every assignment history of length <= maxlen over a 5-key universe."""
+    from ..srcmodel import Unknown
+    ctx.rule(rule, "bounded model table: TrieDict, interpreted (analyser's evaluator) on EVERY history of <= %d assignments over the keys {(), a, ab, abc, b} x values {1, None}, is observationally the dictionary of those assignments: len, get (with default), indexing / KeyError, items / prefixes / values (as multisets), and longest_matching_prefix_value on 8 queries agree with a reference dict after each history, and again when every observation is also made between the assignments" % maxlen)
+    repo = ctx.repo
+    m = repo.mod("classes.trie_dict")
+    site = m.site(m.klass("TrieDict"))
+    ctx.fn("ural.classes.trie_dict.TrieDict")
     try:
-        n, bad = _explore(lambda L: itertools.product(ops, repeat=L), fresh, step, observe, maxlen)
+        n, bad = triedict_model_result(repo, maxlen)
     except Unknown as e:
         ctx.undecided(rule, "TrieDict not interpretable: %s" % e)
         return
@@ -561,19 +594,19 @@ def rule_triedict_model(ctx, rule, maxlen=2):
            witness=bad and "; ".join("t[%r] = %r" % (list(k), v) for k, v in bad[0]), sample="%d histories of <= %d assignments" % (n, maxlen))
 
 
-def rule_hostset_model(ctx, rule, maxlen=3):
-    """HostnameTrieSet against the set of hosts at or under the added domains, on every add order."""
+def hostset_model_result(repo, maxlen, universe=None):
+    """(number of add orders, first disagreement or None) of HostnameTrieSet against the reference set; Unknown propagates"""
     import itertools
     from ..microeval import Raised
-    from ..srcmodel import Unknown
-    ctx.rule(rule, "bounded model table: HostnameTrieSet, interpreted on EVERY ordered selection of <= %d adds over {a.com, b.a.com, c.b.a.com, A.COM, x.org, xn--caf-dma.fr, café.fr, www.a.com.evil.org, ORG, xn--p1ai} (observed at the end, and again with every observation repeated after each add): match(url) is true exactly for hosts equal to or under an added host (whole labels, case-insensitive, punycode = Unicode), len and iteration give the minimal covering set, and nothing depends on the order of the adds" % maxlen)
-    repo = ctx.repo
-    hosts = ["a.com", "b.a.com", "c.b.a.com", "A.COM", "x.org", "xn--caf-dma.fr", "café.fr", "www.a.com.evil.org", "ORG", "xn--p1ai"]
+    cache = repo.__dict__.setdefault("_hostset_model", {})
+    ckey = (maxlen, tuple(universe) if universe else None)
+    if ckey in cache:
+        return cache[ckey]
+    hosts = ["a.com", "b.a.com", "c.b.a.com", "d.b.a.com", "A.COM", "x.org", "xn--caf-dma.fr", "café.fr", "www.a.com.evil.org", "ORG", "xn--p1ai"]
     probes = ["http://\u043a\u0442\u043e.\u0440\u0444/", "http://xn--p1ai/", "http://a.com/x", "https://B.A.com:8080/", "c.b.a.com", "http://xa.com/", "http://a.com.evil.org/", "http://www.a.com.evil.org/p", "http://café.fr/", "http://XN--CAF-DMA.fr/", "http://sub.café.fr/", "http://org/", "http://y.x.org/?u=a.com", "http://fr/"]
     m = repo.mod("classes.hostname_trie_set")
     cls = m.klass("HostnameTrieSet")
     site = m.site(cls)
-    ctx.fn("ural.classes.hostname_trie_set.HostnameTrieSet")
     call = _method_runner(repo, m, cls)
 
     def norm(h):
@@ -600,8 +633,22 @@ def rule_hostset_model(ctx, rule, maxlen=3):
             exp.append(("match", u, any(hu == g or hu.endswith("." + g) for g in added)))
         return obs, exp
 
+    if universe:
+        hosts = list(universe)
+    cache[ckey] = _explore(lambda L: itertools.permutations(hosts, L), fresh, step, observe, maxlen)
+    return cache[ckey]
+
+
+def rule_hostset_model(ctx, rule, maxlen=3):
+    """HostnameTrieSet against the set of hosts at or under the added domains, on every add order."""
+    from ..srcmodel import Unknown
+    ctx.rule(rule, "bounded model table: HostnameTrieSet, interpreted on EVERY ordered selection of <= %d adds over {a.com, b.a.com, c.b.a.com, d.b.a.com, A.COM, x.org, xn--caf-dma.fr, café.fr, www.a.com.evil.org, ORG, xn--p1ai} (observed at the end, and again with every observation repeated after each add): match(url) is true exactly for hosts equal to or under an added host (whole labels, case-insensitive, punycode = Unicode), len and iteration give the minimal covering set, and nothing depends on the order of the adds" % maxlen)
+    repo = ctx.repo
+    m = repo.mod("classes.hostname_trie_set")
+    site = m.site(m.klass("HostnameTrieSet"))
+    ctx.fn("ural.classes.hostname_trie_set.HostnameTrieSet")
     try:
-        n, bad = _explore(lambda L: itertools.permutations(hosts, L), fresh, step, observe, maxlen)
+        n, bad = hostset_model_result(repo, maxlen)
     except Unknown as e:
         ctx.undecided(rule, "HostnameTrieSet not interpretable: %s" % e)
         return
@@ -610,20 +657,19 @@ def rule_hostset_model(ctx, rule, maxlen=3):
            witness=bad and "; ".join("add(%r)" % h for h in bad[0]), sample="%d ordered selections of <= %d adds" % (n, maxlen))
 
 
-def rule_lrutrie_model(ctx, rule, maxlen=2):
-    """LRUTrie against 'value of the longest stored url prefix' on every short history of set / set_lru."""
+def lrutrie_model_result(repo, maxlen):
+    """(number of histories, first disagreement or None) of LRUTrie against the longest-stored-prefix reference"""
     import itertools
     from ..microeval import Raised
-    from ..srcmodel import Unknown
     from .common_lru import _ref_stems
-    ctx.rule(rule, "bounded model table: LRUTrie, interpreted on EVERY history of <= %d stores over {http://a.com, http://a.com/, http://a.com/x, http://a.com/x/, http://a.com/x/y?q=1, http://b.a.com/x, the LRU without stems} (through set, __setitem__, set_lru with a stem list and set_lru with a serialized LRU in turn): match / match_lru return the latest value stored under the longest stored url whose stems (empty path stems aside) prefix the query's, None when there is none; len and iteration report each stored entry once" % maxlen)
-    repo = ctx.repo
+    cache = repo.__dict__.setdefault("_lrutrie_model", {})
+    if maxlen in cache:
+        return cache[maxlen]
     urls = ["http://a.com", "http://a.com/", "http://a.com/x", "http://a.com/x/", "http://a.com/x/y?q=1", "http://b.a.com/x", None]
     queries = ["http://a.com", "http://a.com/x", "http://a.com/x/", "http://a.com/x/y", "http://a.com/x/y?q=1#f", "http://a.com/xy", "http://b.a.com/x/z", "http://c.a.com/", "https://a.com/x", "http://a.org/x"]
     m = repo.mod("lru.trie")
     cls = m.klass("LRUTrie")
     site = m.site(cls)
-    ctx.fn("ural.lru.trie.LRUTrie")
     call = _method_runner(repo, m, cls)
 
     def key(u):
@@ -670,10 +716,31 @@ def rule_lrutrie_model(ctx, rule, maxlen=2):
             exp.append(("match_lru", q, e))
         return obs, exp
 
+    n, bad = _explore(lambda L: itertools.product(range(len(urls)), repeat=L), fresh, step, observe, maxlen)
+    if bad:
+        bad = ([urls[i] or "<the LRU without stems>" for i in bad[0]], bad[1], bad[2])
+    cache[maxlen] = (n, bad)
+    return cache[maxlen]
+
+
+def lrutrie_cells(ctx):
+    """cells callable for the shape obligations on LRUTrie's entry points"""
+    def cells():
+        n, bad = lrutrie_model_result(ctx.repo, 2)
+        return [("LRUTrie answers the latest value of the longest stored prefix on all %d histories of <= 2 stores%s" % (n, "" if bad is None else ": after %r it reports %r, expected %r" % tuple(bad)), bad is None)]
+    return cells
+
+
+def rule_lrutrie_model(ctx, rule, maxlen=2):
+    """LRUTrie against 'value of the longest stored url prefix' on every short history of set / set_lru."""
+    from ..srcmodel import Unknown
+    ctx.rule(rule, "bounded model table: LRUTrie, interpreted on EVERY history of <= %d stores over {http://a.com, http://a.com/, http://a.com/x, http://a.com/x/, http://a.com/x/y?q=1, http://b.a.com/x, the LRU without stems} (through set, __setitem__, set_lru with a stem list and set_lru with a serialized LRU in turn): match / match_lru return the latest value stored under the longest stored url whose stems (empty path stems aside) prefix the query's, None when there is none; len and iteration report each stored entry once" % maxlen)
+    repo = ctx.repo
+    m = repo.mod("lru.trie")
+    site = m.site(m.klass("LRUTrie"))
+    ctx.fn("ural.lru.trie.LRUTrie")
     try:
-        n, bad = _explore(lambda L: itertools.product(range(len(urls)), repeat=L), fresh, step, observe, maxlen)
-        if bad:
-            bad = ([urls[i] or "<the LRU without stems>" for i in bad[0]], bad[1], bad[2])
+        n, bad = lrutrie_model_result(repo, maxlen)
     except Unknown as e:
         ctx.undecided(rule, "LRUTrie not interpretable: %s" % e)
         return
